@@ -114,8 +114,32 @@ Fixpoint run_hist (vr : variant) (t : cnode) (b : book) (uid : N) (h : list (lis
     end
   end.
 
+(* histories starting from a hierarchy the harness supplies (nested-move stream): observed are the annotated
+   tree and the paths of the engine's process table *)
+Fixpoint run_nest (t : cnode) (b : book) (uid : N) (h : list (list key * list (sop N)))
+  : list (option (anode * list (list key))) :=
+  match h with
+  | [] => []
+  | (here, ops) :: r =>
+    match kapply_ops vfixed t here ops uid with
+    | Err _ => [None]
+    | Ok (t', rp, uid') =>
+      match kbook_apply b rp with
+      | Err _ => [None]
+      | Ok b' => Some (annotate t t', map fst (b_procs b')) :: run_nest t' b' uid' r
+      end
+    end
+  end.
+
+Definition book_of (t : cnode) : book :=
+  let ps := flat_map (fun pp => if pi_step (snd pp) then [] else [(fst pp, pi_obj (snd pp))]) (proc_nodes t []) in
+  {| b_procs := ps; b_steps := []; b_graph := empty_graph;
+     pub_processes := ps; pub_steps := []; pub_topology := map fst ps; pub_flow := [] |}.
+
 Inductive hcase :=
-| HHist (vr : variant) (h : list (list key * list (sop N))) (exp : list (option (anode * bobs))).
+| HHist (vr : variant) (h : list (list key * list (sop N))) (exp : list (option (anode * bobs)))
+| HNest (root : cnode) (uid0 : N) (h : list (list key * list (sop N)))
+        (exp : list (option (anode * list (list key)))).
 
 Definition obs_equ (a b : option (anode * bobs)) : bool :=
   match a, b with
@@ -124,12 +148,29 @@ Definition obs_equ (a b : option (anode * bobs)) : bool :=
   | _, _ => false
   end.
 
+Definition nobs_equ (a b : option (anode * list (list key))) : bool :=
+  match a, b with
+  | Some (x, p), Some (y, q) => anode_equ x y && set_equ kpath_eqb p q
+  | None, None => true
+  | _, _ => false
+  end.
+
 Definition check_case (c : hcase) : bool :=
   match c with
   | HHist vr h e => leqb obs_equ (run_hist vr root0 book0 100 h) e
+  | HNest root uid0 h e => leqb nobs_equ (run_nest root (book_of root) uid0 h) e
   end.
 
-Definition model_out (c : hcase) := match c with HHist vr h _ => run_hist vr root0 book0 100 h end.
+Definition model_out (c : hcase) :=
+  match c with
+  | HHist vr h _ => run_hist vr root0 book0 100 h
+  | HNest _ _ _ _ => []
+  end.
+Definition model_out_nest (c : hcase) :=
+  match c with
+  | HNest root uid0 h _ => run_nest root (book_of root) uid0 h
+  | _ => []
+  end.
 
 (* which component disagrees first (for replay files): (step index, tree ok, book ok) *)
 Definition diagnose (c : hcase) : list (bool * bool) :=
@@ -140,4 +181,10 @@ Definition diagnose (c : hcase) : list (bool * bool) :=
                    | (None, None) => (true, true)
                    | _ => (false, false)
                    end) (combine (run_hist vr root0 book0 100 h) e)
+  | HNest root uid0 h e =>
+    map (fun ab => match ab with
+                   | (Some (x, p), Some (y, q)) => (anode_equ x y, set_equ kpath_eqb p q)
+                   | (None, None) => (true, true)
+                   | _ => (false, false)
+                   end) (combine (run_nest root (book_of root) uid0 h) e)
   end.
